@@ -265,7 +265,7 @@ fn xlsb_with_overwritten_cells(bytes: &[u8]) -> Option<Vec<u8>> {
 fn run_case(case: &Case, drv: &mut Driver, rep: &mut Report) -> Vec<(String, String, String, String, String)> {
     let mut fails = vec![];
     let fmt = case.fmt;
-    let book = wb::LBook { sheets: vec![case.sheet.clone()] };
+    let book = wb::LBook { sheets: vec![case.sheet.clone()], ..Default::default() };
     let mut bytes = wb::write(&book, fmt, &mut Rng::new(case.seed));
     if fmt == Fmt::Xlsb && case.seed % 3 == 1 {
         if let Some(b) = xlsb_with_overwritten_cells(&bytes) {
